@@ -233,8 +233,9 @@ def main(argv):
         "distinct_counting": "blake2b-64 of the structured case; per-shard cap %d, %d cases arrived after a cap (not counted)" % (400000, m["hash_overflow"]),
         "rule": getattr(mod, "RULE", ""),
         "samples": samples or [{"class": "none", "case": None}],
-        "exhaustive": bool(m["exhaustive"]) and bool(getattr(mod, "EXHAUSTIVE_CLAIM", False)),
-        "exhaustive_subspaces": m["exhaustive"],
+        # the property's own space is unbounded: only the listed finite sub-spaces were enumerated completely
+        "exhaustive": False,
+        "exhaustive_subspaces_enumerated_completely": m["exhaustive"],
         "class_coverage": dict(sorted(m["classes"].items())),
         "monitor_counters": dict(sorted(m["counters"].items())),
         "probe_events": m["probe_events"],
